@@ -43,8 +43,18 @@ def encryption_ids():
     return ids((1, 18))
 
 
+def entry(kid):
+    """pool entry; 'kid@H,S' is the same ECDH key carrying other KDF parameters (hash id, KEK cipher id)"""
+    if '@' in kid:
+        base, kdf = kid.split('@')
+        e = dict(pool()[base])
+        e['kdf'] = [int(x) for x in kdf.split(',')]
+        return e
+    return pool()[kid]
+
+
 def numbers(kid):
-    e = pool()[kid]
+    e = entry(kid)
     params = {}
     for k, v in e['params'].items():
         params[k] = bytes.fromhex(v) if k == 'point' else int(v, 16)
